@@ -1,4 +1,5 @@
 """C13 - one replica set per template, faithful to it, never collected while in use."""
+import k8s as K
 import histgen
 import project as P
 import worldenc
@@ -72,6 +73,16 @@ def generate(rng, tier, stats):
                                        canary=rng.random() < 0.5))
     for _ in range(160 if tier == "quick" else 2500):
         out.append(worldgen.gen_eds_world(rng, stats, {"scenario": rng.choice(["many_rs", "many_rs", "fresh", "new_template", "canary_failed", "steady", "no_canary_update"])}))
+    # the replica set of the current template may be marked for deletion and still be there (a finalizer holds it):
+    # it still is the replica set of that template - no second one is created
+    for c in out:
+        if rng.random() < 0.15:
+            rss = [o for o in c["objects"] if o["kind"] == "ExtendedDaemonSetReplicaSet"]
+            if rss:
+                o = rng.choice(rss)
+                o["metadata"]["deletionTimestamp"] = K.ts(-30)
+                o["metadata"]["finalizers"] = ["foregroundDeletion"]
+                wprop.bump(stats, "a replica set marked for deletion but still present", "yes")
     # an ExtendedDaemonSet may itself carry the hash annotation (a manifest exported from a replica set or from the
     # generated PodTemplate): the replica set created for a template still records the hash of THAT template
     for c in out:
